@@ -68,6 +68,8 @@ SCHEME_KINDS = {
               spaces.UNIFYING_TINY, spaces.INDUCED05_TINY],
     'three_t': [spaces.UNIFYING, spaces.PSEUDO, spaces.B5LTT5, spaces.UNIFYING_TINY, spaces.INDUCED05_TINY],
     'two_t': [spaces.UNIFYING, spaces.B3LTB4, spaces.UNIFYING_TINY],
+    'tiny': [spaces.UNIFYING_TINY, spaces.INDUCED05_TINY],
+    'c15': [spaces.UNIFYING, spaces.EXTENDED, spaces.B3LTB4],
     'cycle': [spaces.UNIFYING, spaces.UNIFYING_P0375, spaces.INDUCED],
     'ext1': [spaces.UNIFYING],
 }
@@ -235,6 +237,25 @@ def run_block(ctx, sh, mode, configs, oracle, flags=(True, False), per_dataset=N
                             oracle(ctx, info)
                             history[key].append({'dataset': ds, 'scheme': s, 'one': one})
                             ctx.count('executions_on_a_reused_algorithm_object')
+                            # ... and immediately afterwards its twin: the same rankings in reverse order (an equal
+                            # Dataset whose element ids differ) on the same object
+                            twin = tuple(reversed(ds))
+                            if origin is None and twin != ds and one:
+                                prev = list(history[key][-2:])
+                                dataset, scheme = mk_dataset(twin, labels), mk_scheme(s)
+                                harness.mark({'cfg': {'mode': mode}, 'dataset': twin, 'labels': lname, 'n': n, 'scheme': s,
+                                              'config': cfg.name, 'one': one, 'schedule': [], 'reused_after': prev})
+                                status, value, trace = algos.run_config(cfg, dataset, scheme, one, None, alg=instances[key])
+                                ctx.evals += 1
+                                info = Info()
+                                info.ds, info.lname, info.n, info.universe, info.labels = twin, lname, n, universe, labels
+                                info.s, info.cfg, info.one, info.choices = s, cfg, one, [c for _, _, c in trace]
+                                info.status, info.value, info.back, info.mode = status, value, back, mode
+                                info.ref = Ref(twin, universe, s)
+                                info.dataset, info.scheme, info.reused, info.origin = dataset, scheme, prev, None
+                                oracle(ctx, info)
+                                history[key].append({'dataset': twin, 'scheme': s, 'one': one})
+                                ctx.count('executions_on_a_reused_object_with_the_reversed_twin')
         if per_dataset:
             per_dataset(ctx, ds)
 
